@@ -45,8 +45,9 @@ type Delivery struct {
 
 // InMsg is a broker->client application message.
 type InMsg struct {
-	Tag string `json:"tag"`
-	QoS byte   `json:"qos"`
+	Tag  string `json:"tag"`
+	QoS  byte   `json:"qos"`
+	Hold bool   `json:"hold,omitempty"` // QoS 2 only: the broker withholds PUBREL until a "release" step
 }
 
 type bconn struct {
@@ -82,6 +83,8 @@ type Broker struct {
 	// (index = connection ordinal-1; the last entry repeats).
 	OnConnect      [][]InMsg
 	nextOut        uint16
+	holdRel        map[uint16]bool // outbound QoS 2 ids whose PUBREL is withheld
+	pendRel        []uint16        // withheld PUBRELs whose PUBREC has arrived (current connection)
 	Cur            *memnet.Conn
 	SubackOverride func(p *mqttref.Packet) []byte
 }
@@ -236,6 +239,7 @@ func (b *Broker) process(c *memnet.Conn, bc *bconn, p *mqttref.Packet, kind stri
 		}
 		bc.gotConnect = true
 		bc.connect = p
+		b.pendRel = nil
 		b.Connects = append(b.Connects, p)
 		if len(kind) >= 6 && kind[:6] == Refuse {
 			code := byte(3)
@@ -243,7 +247,12 @@ func (b *Broker) process(c *memnet.Conn, bc *bconn, p *mqttref.Packet, kind stri
 				code = kind[7] - '0'
 			}
 			b.SessionPresentSent = append(b.SessionPresentSent, false)
-			return []bresp{{mqttref.EncConnAck(false, code), ""}}, true
+			// "refuse:N" closes after the refusal; "refuseopen:N" leaves closing to the client
+			closeIt := !(len(kind) >= 10 && kind[:10] == "refuseopen")
+			if !closeIt {
+				code = kind[len(kind)-1] - '0'
+			}
+			return []bresp{{mqttref.EncConnAck(false, code), ""}}, closeIt
 		}
 		sp := false
 		if b.Cfg.Session == "lose" || p.CleanSession {
@@ -320,7 +329,11 @@ func (b *Broker) process(c *memnet.Conn, bc *bconn, p *mqttref.Packet, kind stri
 		return nil, true
 	case mqttref.PUBREC:
 		// client acknowledges an inbound QoS 2 message
-		resp = append(resp, bresp{mqttref.EncAck(mqttref.PUBREL, p.ID), ""})
+		if b.holdRel[p.ID] {
+			b.pendRel = append(b.pendRel, p.ID)
+		} else {
+			resp = append(resp, bresp{mqttref.EncAck(mqttref.PUBREL, p.ID), ""})
+		}
 	case mqttref.PUBACK, mqttref.PUBCOMP:
 	default:
 		b.ProtoErrors = append(b.ProtoErrors, fmt.Sprintf("conn %d: unexpected %s from client", c.ID, mqttref.TypeName(p.Type)))
@@ -341,8 +354,26 @@ func (b *Broker) PushLocked(m InMsg) bool {
 		return false
 	}
 	r := b.outMsg("in/"+m.Tag, []byte(fmt.Sprintf("%s@%d", m.Tag, c.ID)), m.QoS)
+	if m.Hold && m.QoS == 2 {
+		if b.holdRel == nil {
+			b.holdRel = map[uint16]bool{}
+		}
+		b.holdRel[b.nextOut] = true
+	}
 	c.SendLocked(r.raw, r.tag)
 	return true
+}
+
+// ReleaseLocked sends the withheld PUBRELs whose PUBREC arrived on the current connection.
+func (b *Broker) ReleaseLocked() {
+	c := b.Cur
+	for _, id := range b.pendRel {
+		delete(b.holdRel, id)
+		if c != nil && c.OpenLocked() {
+			c.SendLocked(mqttref.EncAck(mqttref.PUBREL, id), "")
+		}
+	}
+	b.pendRel = nil
 }
 
 // CutNowLocked closes the current connection from the broker side.
